@@ -39,6 +39,8 @@ func genScript(t *rapid.T, g scriptGenOpts) Script {
 	s.CtxAPI = rapid.IntRange(0, 2).Draw(t, "ctxapi") == 0
 	s.OptReuse = rapid.IntRange(0, 3).Draw(t, "optreuse") == 0
 	s.RegAllBidi = rapid.IntRange(0, 5).Draw(t, "regallbidi") == 0
+	s.OneRecv = rapid.IntRange(0, 2).Draw(t, "onerecv") == 0
+	s.Wrap = rapid.SampledFrom([]string{"", "", "", "", "u", "s", "us"}).Draw(t, "wrap")
 	s.Chunked = rapid.IntRange(0, 4).Draw(t, "chunked") == 0
 	s.RespWithErr = rapid.IntRange(0, 2).Draw(t, "respwitherr") == 0
 	if rapid.IntRange(0, 7).Draw(t, "spoof") == 0 {
